@@ -18,6 +18,12 @@ CLAIMS = {
     "C10": dict(tech=TECH, ref="§5-C10",
                 text="Proof: the .gsi bookkeeping is proved to hold, for exactly the contigs != 'unknown' of the output, the offsets of the first and last record of that contig; no 'unknown' key; every record of a contig lies between its two offsets for any strictly increasing offset function (plain or BGZF virtual offsets). Correspondence: real run_sort with/without 'unknown' records, .gsi/--outind, plain/BGZF output; offsets resolved by seeking the real output.",
                 note=BASE + "tell()/seek() of pysam BGZF and of text files assumed strictly increasing and faithful (C17's interface); pickle round-trip."),
+    "C14": dict(tech=TECH, ref="§5-C14",
+                text="Proof: for every GFA file, the side-indexed adjacency built by add_edge answers the path_exists table exactly when the step is a declared link or its mirror image (stepOk_iff: all orientation cases, self-links, both-end declarations, duplicate and dangling links), hence extract_path returns the spelled sequence exactly for walks and '' otherwise (extractPath_spec); the reversed walk is accepted iff the walk is and spells the reverse complement. Correspondence: real GFA.extract_path and find_path (file mode, FASTA names) on random graphs x walk/non-walk step sequences and their reversals.",
+                note=BASE + "Text tokenisation of GFA lines and of the path string (re.findall) is modelled at token level: covered by correspondence only. Steps range over nodes of the graph (an unknown first node of a pair raises KeyError in the tool: outside the quantifier)."),
+    "C19": dict(tech=TECH, ref="§5-C19",
+                text="Proof: the fold model of run_stat is proved equal to declarative definitions (counts, primary-only reads/bases, per-read maxima as exact rationals, CIGAR run counts, >=50 threshold, perfect alignments) and invariant under every permutation of the records, averages included. Correspondence: real run_stat on generated files (tp P/p/S/I/absent, MAPQ 0.., several records per read, plain/BGZF, each file also shuffled); printed averages must be correct 3-decimal roundings of the exact values.",
+                note=BASE + "IEEE floats and round() are modelled by exact rationals (not verified); hypothesis: at least one primary record (the tool divides by the number of reads). parse_gaf_line is C16's model."),
 }
 
 IN_PROGRESS = "check under construction in this round; not claimed until its proofs and correspondence run green"
